@@ -14,7 +14,7 @@ func fd(prop, clause, disc, detail string) engine.Finding {
 }
 
 // C13State: referential integrity of orders, shards, data models and schedules.
-func C13State(s *Snap) []engine.Finding {
+func C13State(s *Snap, g *lifeGhost) []engine.Finding {
 	var out []engine.Finding
 	for _, oid := range s.OrderIds {
 		o := s.Orders[oid]
@@ -23,6 +23,9 @@ func C13State(s *Snap) []engine.Finding {
 				kind := "store-order"
 				if o.Operation == 3 {
 					kind = "renew-order"
+					if g != nil && g.RenewMig[o.Id] {
+						kind = "renew-order-created-during-pending-migration"
+					}
 				}
 				out = append(out, fd("C13", "order-lists-missing-shard", kind, fmt.Sprintf("order %d (op %d) lists shard %d which does not exist", o.Id, o.Operation, id)))
 			}
